@@ -527,8 +527,8 @@ func judgeExpectedHits(r *Run, j *Judged, cl []*cls, by map[int]*OResp) {
 				// "... served from the store with the updated fields": every end-to-end field the 304 carried
 				hop := canonHopByHop(L.Header)
 				for k, want := range L.Header {
-					if hop[k] || k == "Content-Length" || k == "Age" {
-						continue
+					if hop[k] || k == "Content-Length" || k == "Age" || k == "X-Httpcache-Status" || k == "X-From-Cache" {
+						continue // (the last two are the cache's own statement about each exchange, whatever upstream sent)
 					}
 					if _, ok := parseDate(L.Header.Get("Date")); k == "Date" && !ok {
 						continue
